@@ -112,13 +112,14 @@ struct Cfg {
 	bool faulty(int i) const { return std::find(F.begin(), F.end(), i) != F.end(); }
 };
 
-struct Sig { bool ran, ok, libver; std::string a, b; Sig() : ran(false), ok(false), libver(false) {} };
+struct Sig { bool ran, ok, libver, erased; std::string a, b; Sig() : ran(false), ok(false), libver(false), erased(false) {} };
 struct Party {
 	bool gen_ok, refresh_ok, threw;
+	bool erased_keygen;      // DSS: the key's DKG removed a party from QUAL that stays in x_rvss->QUAL (known finding dkg-qual-erased)
 	std::string what, y, log;
 	std::vector<Sig> sig;
 	std::vector<size_t> qual;
-	Party() : gen_ok(false), refresh_ok(true), threw(false) {}
+	Party() : gen_ok(false), refresh_ok(true), threw(false), erased_keygen(false) {}
 };
 struct World {
 	std::vector<Party> P;
@@ -155,6 +156,26 @@ struct Steer {
 		buf[0] = (unsigned char)bit;            // tmcg_mpz_wrandom_ui reads the 8 bytes in host (little-endian) order
 		return true;
 	}
+};
+
+// Log sink that keeps nothing (or everything, for --log) but notices one marker line of the library's protocol log:
+// "party erased from QUAL" is printed at exactly one place, CanettiGennaroJareckiKrawczykRabinDKG::Generate step 3, where a party
+// disqualified in the challenge RVSS is removed from the DKG's QUAL although its polynomial stays in every share — the
+// root cause of the known finding tsig/dss/dkg-qual-erased (the instance may be a local of DSS::Sign, so the log is the
+// only place where the harness can observe it).
+struct MarkerBuf : std::streambuf {
+	std::string pat, *keep;
+	size_t st;
+	bool *flag;
+	MarkerBuf() : pat("party erased from QUAL"), keep(nullptr), st(0), flag(nullptr) {}
+	void feed(char c)
+	{
+		if (keep) keep->push_back(c);
+		if (c == pat[st]) { if (++st == pat.size()) { if (flag) *flag = true; st = 0; } }
+		else st = (c == pat[0]) ? 1 : 0;
+	}
+	int_type overflow(int_type c) override { if (c != traits_type::eof()) feed((char)c); return c; }
+	std::streamsize xsputn(const char *b, std::streamsize n) override { for (std::streamsize k = 0; k < n; k++) feed(b[k]); return n; }
 };
 
 // MemAiou whose index on its network (j) differs from the identity of its thread in the scheduler: the reduced signer
@@ -303,9 +324,10 @@ inline World run_world(const Cfg &C, uint64_t seed, bool want_log = false)
 			aiou2R = new SubAiou(NR, i - 1, i, &bcastR, &S, aiounicast::aio_scheduler_roundrobin, to);
 			rbcR = new CachinKursawePetzoldShoupRBC(NR, TR, i - 1, aiou2R, aiounicast::aio_scheduler_roundrobin, to);
 		}
-		std::ostream nolog(nullptr);
-		std::ostringstream thelog;
-		std::ostream &err = want_log ? (std::ostream &)thelog : nolog;
+		MarkerBuf mb;
+		std::string thelog;
+		if (want_log) mb.keep = &thelog;
+		std::ostream err(&mb);
 		mpz_t m, a, b, tmp;
 		mpz_init(m), mpz_init(a), mpz_init(b), mpz_init(tmp);
 		int bar = 0;
@@ -341,6 +363,7 @@ inline World run_world(const Cfg &C, uint64_t seed, bool want_log = false)
 		else dss = new CanettiGennaroJareckiKrawczykRabinDSS(N, T, i, G.p, G.q, G.g, G.h, G.ps, G.qs, true, false);
 		// ---- key generation
 		phase[i] = 0;
+		mb.flag = &P.erased_keygen;
 		guarded([&]() {
 			rbc.setID("c16/keygen");
 			if (sw_kg) steer[i].arm(0, 0, B.kg_coin);
@@ -349,6 +372,7 @@ inline World run_world(const Cfg &C, uint64_t seed, bool want_log = false)
 		});
 		P.y = dec(nts ? nts->y : dss->y);
 		P.qual = nts ? nts->QUAL : dss->QUAL;
+		if (dss && dss->dkg->QUAL.size() != dss->dkg->x_rvss->QUAL.size()) P.erased_keygen = true;
 		barrier();
 		if (fl && B.kind == OUTCAST && nts)
 		{
@@ -369,6 +393,7 @@ inline World run_world(const Cfg &C, uint64_t seed, bool want_log = false)
 			if (!red || i > 0)
 			{
 				sg.ran = true;
+				mb.flag = &sg.erased;
 				guarded([&]() {
 					if (sw_sign) steer[i].arm(B.K, B.top, B.sub);
 					if (nts)
@@ -399,6 +424,7 @@ inline World run_world(const Cfg &C, uint64_t seed, bool want_log = false)
 			barrier();
 			if (C.scheme == DSS && k == 0 && C.msgs.size() > 1)
 			{
+				mb.flag = &P.erased_keygen;
 				guarded([&]() {
 					rbc.setID("c16/refresh");
 					if (sw_kg) steer[i].arm(0, 0, B.kg_coin);
@@ -410,7 +436,7 @@ inline World run_world(const Cfg &C, uint64_t seed, bool want_log = false)
 			}
 		}
 		if (steer[i].misaligned) W.misaligned = true;
-		if (want_log) P.log = thelog.str();
+		if (want_log) P.log = thelog;
 		mpz_clear(m), mpz_clear(a), mpz_clear(b), mpz_clear(tmp);
 		delete nts;
 		delete dss;
